@@ -16,6 +16,8 @@ import H3.Drv.C08
 import H3.Drv.C09
 import H3.Drv.C14
 import H3.Drv.C03
+import H3.Drv.C11
+import H3.Drv.C10
 open H3.Drv
 
 def dispatch (ws : List String) : String :=
@@ -38,6 +40,8 @@ def dispatch (ws : List String) : String :=
     else if e == "goaway" || e == "goawayj" then H3.Drv.C08.handle ws
     else if e == "drain" then H3.Drv.C09.handle ws
     else if e == "req" then H3.Drv.C03.handle ws
+    else if e == "qpack" then H3.Drv.C11.handle ws
+    else if e == "lim" then H3.Drv.C10.handle ws
     else if e == "wbuf" || e == "out" || e == "outlog" then H3.Drv.C14.handle ws
     else "bad-op"
 
